@@ -152,13 +152,24 @@ func parseInt64(numberString string) (string, int64, error) {
 		numberString = strings.ReplaceAll(numberString, "_", "")
 	}
 
-	if strings.HasPrefix(numberString, "0x") ||
-		strings.HasPrefix(numberString, "0X") {
-		num, err := strconv.ParseInt(numberString[2:], 16, 64)
+	// the yaml parser tags a base prefix with a sign in front of it (-0x10, +0o7) as an integer as well
+	sign := ""
+	unsigned := numberString
+	if strings.HasPrefix(unsigned, "-") || strings.HasPrefix(unsigned, "+") {
+		sign = unsigned[:1]
+		unsigned = unsigned[1:]
+	}
+
+	if strings.HasPrefix(unsigned, "0x") ||
+		strings.HasPrefix(unsigned, "0X") {
+		num, err := strconv.ParseInt(sign+unsigned[2:], 16, 64)
 		return "0x%X", num, err
-	} else if strings.HasPrefix(numberString, "0o") {
-		num, err := strconv.ParseInt(numberString[2:], 8, 64)
+	} else if strings.HasPrefix(unsigned, "0o") {
+		num, err := strconv.ParseInt(sign+unsigned[2:], 8, 64)
 		return "0o%o", num, err
+	} else if strings.HasPrefix(unsigned, "0b") {
+		num, err := strconv.ParseInt(sign+unsigned[2:], 2, 64)
+		return "0b%b", num, err
 	}
 	num, err := strconv.ParseInt(numberString, 10, 64)
 	return "%v", num, err
